@@ -782,6 +782,23 @@ class Executor:
             ast.fix_missing_locations(s2)
             self.loop_ord[id(s2)] = self.loop_ord[id(s)]
             return self.for_range(s2, st, k)
+        if isinstance(it, ast.Subscript) and isinstance(it.slice, ast.Slice) and it.slice.lower is None and it.slice.step is None \
+                and it.slice.upper is not None and isinstance(it.value, ast.Name) and isinstance(s.target, ast.Name) \
+                and st.env.get(it.value.id) is not None and st.env[it.value.id].sort == 'IterArr':
+            # for x in xs[:n]  ==  for i in range(<n clamped as slicing does>): x = xs[i]     (xs a local array of iterators; the loop keeps
+            # its ordinal, so the invariants of the index form apply)
+            xs, n_ = it.value.id, ast.unparse(it.slice.upper)
+            rng = ast.parse('range((min(%s, len(%s)) if (%s) >= 0 else max(len(%s) + (%s), 0)))' % (n_, xs, n_, xs, n_), mode='eval').body
+            s2 = ast.For(target=ast.Name(id='__i%d' % self.loop_ord.get(id(s), 0), ctx=ast.Store()), iter=rng,
+                         body=[ast.Assign(targets=[ast.Name(id=s.target.id, ctx=ast.Store())],
+                                          value=ast.Subscript(value=ast.Name(id=xs, ctx=ast.Load()),
+                                                              slice=ast.Name(id='__i%d' % self.loop_ord.get(id(s), 0), ctx=ast.Load()), ctx=ast.Load()),
+                                          lineno=s.lineno)] + s.body, orelse=[])
+            ast.copy_location(s2, s)
+            ast.fix_missing_locations(s2)
+            if id(s) in self.loop_ord:
+                self.loop_ord[id(s2)] = self.loop_ord[id(s)]
+            return self.for_range(s2, st, k)
         for st2, v in self.eval(it, st):
             if isinstance(v, Exc):
                 k.exc(st2, v)
